@@ -702,3 +702,32 @@ pub fn explode_shuffled<O: Lbl, A: Lbl>(p: &POh<O, A>) -> PLax<O, A> {
     let np = crate::rng::Rng(crate::ctx::hash_of(p) | 1).perm(e.w.len());
     renumber_lax(&e, &np)
 }
+
+/// A label whose `==` (and order, hash) look at `sort` only: two labels of one sort are equal although they
+/// are different values. Lets an oracle ask *which* of several equal labels a result node carries.
+#[derive(Clone, Debug)]
+pub struct Tag {
+    pub sort: u32,
+    pub id: u32,
+}
+impl PartialEq for Tag {
+    fn eq(&self, o: &Tag) -> bool {
+        self.sort == o.sort
+    }
+}
+impl Eq for Tag {}
+impl std::hash::Hash for Tag {
+    fn hash<H: std::hash::Hasher>(&self, h: &mut H) {
+        self.sort.hash(h)
+    }
+}
+impl PartialOrd for Tag {
+    fn partial_cmp(&self, o: &Tag) -> Option<std::cmp::Ordering> {
+        Some(self.cmp(o))
+    }
+}
+impl Ord for Tag {
+    fn cmp(&self, o: &Tag) -> std::cmp::Ordering {
+        self.sort.cmp(&o.sort)
+    }
+}
